@@ -343,7 +343,7 @@ pub fn enumerate(max: usize) -> Vec<NameCase> {
 crate::declare_parts!(Names);
 
 pub fn run(ctx: &mut Ctx) {
-    ctx.rule = "all joins by '/' of 1..=N segments from the 14-entry alphabet {'', '.', '..', '...', 'a', '.a', 'a.', 'a..b', 'a\\\\b', '..\\\\a', NUL, '%2e%2e', fullwidth dots, 200-char} (N = 5, enumerated completely in both tiers) plus generated names with leading/trailing/doubled slashes and character noise (slash look-alikes, percent escapes, newlines, canary names) and absolute spellings built from the scratch tree's own path (base, parent, siblings whose name extends the base's name; 6 prefixes x 14 suffixes enumerated); each name is passed to safe_join (hook; with the scratch base and with 9 other spellings of a base: empty, relative, trailing separator, root), Environment::get_template, and to include / include-list / extends / import inside templates against a real scratch tree with OUTSIDE canaries next to and above the base. Non-trivial: a dot-initial, backslash, NUL or empty segment, or more than two segments. Distinct by name.".into();
+    ctx.rule = "all joins by '/' of 1..=N segments from the 14-entry alphabet {'', '.', '..', '...', 'a', '.a', 'a.', 'a..b', 'a\\\\b', '..\\\\a', NUL, '%2e%2e', fullwidth dots, 200-char} (N = 5, enumerated completely in both tiers) plus generated names with leading/trailing/doubled slashes and character noise (slash look-alikes, percent escapes, newlines, canary names) and absolute spellings built from the scratch tree's own path (base, parent, siblings whose name extends the base's name; 6 prefixes x 14 suffixes enumerated); each name is passed to safe_join (hook; with the scratch base and with 9 other spellings of a base: empty, relative, trailing separator, root), Environment::get_template, and to include / include-list / extends / import inside templates against a real scratch tree with OUTSIDE canaries next to and above the base, among them files named like the base directory plus a suffix (.j2, .jinja, .html, .txt, .bak, ~). Non-trivial: a dot-initial, backslash, NUL or empty segment, or more than two segments. Distinct by name.".into();
     ctx.assumptions = vec![
         "no symbolic links inside the base (the property exempts them)".into(),
         "Linux path semantics (backslash is an ordinary file-name character)".into(),
